@@ -75,7 +75,7 @@ PURITY_TECH = " + purity monitor (same call repeated in reverse / shuffled order
 PURITY_TEXT = " A sample of the calls is additionally repeated on shared objects in other orders and concurrently, in the plain build and in a -race build: outcomes must not depend on history or on concurrent use, and the race detector must report nothing in go-ucan code."
 # id -> (technique suffix, text suffix): added in later sessions
 EXTRA = {
- "C01": ("", " Chains of up to 48 links, and history independence: the same invocation token checked with the full loader, a depleted loader and the full loader again."),
+ "C01": (PURITY_TECH, " The verdicts of many different chains (conforming and deviating in every rule, some sharing delegations and loaders) are re-computed in other orders and from 16..32 goroutines at once, in the plain and in a -race build, and must not change. Chains of up to 48 links, and history independence: the same invocation token checked with the full loader, a depleted loader and the full loader again."),
  "C02": ("", " The lattice also holds an empty inner segment and two letters that Unicode case folding identifies; a scale family runs chains of up to 48 links over commands of up to 40 long / non-ASCII segments with zero or one widening link."),
  "C03": ("", " Policies of up to 130 statements per link, chains of up to 40 links, look-alike twin statements (100 vs 100.0, 5 vs \"5\") of which one is false, heterogeneous quantified lists, and the same delegation objects matched against satisfying / violating / satisfying invocations in turn."),
  "C04": ("", " Probes are repeated in other time zones; hand-signed payloads carry every delicate timestamp; chains of up to 40 links; not-before bounds more than 292 years ahead."),
